@@ -131,6 +131,14 @@ var c05Entries = []c05Entry{
 		}
 		return gojson.Unmarshal(b, &v) == nil
 	}, false, true},
+	// typed number destinations at top level and as elements, so that the short exhaustive texts
+	// reach each number decoder (json.Number, float, int) in buffer and stream mode
+	{"Unmarshal:Number", func(b []byte) bool { var v gojson.Number; return gojson.Unmarshal(b, &v) == nil }, false, false},
+	{"Unmarshal:[]Number", func(b []byte) bool { var v []gojson.Number; return gojson.Unmarshal(b, &v) == nil }, false, false},
+	{"Decode:[]Number", func(b []byte) bool { var v []gojson.Number; return c05DecodeOne(b, &v) }, true, false},
+	{"Unmarshal:[]float64", func(b []byte) bool { var v []float64; return gojson.Unmarshal(b, &v) == nil }, false, false},
+	{"Decode:[]float32", func(b []byte) bool { var v []float32; return c05DecodeOne(b, &v) }, true, false},
+	{"Unmarshal:map[string]int64", func(b []byte) bool { var v map[string]int64; return gojson.Unmarshal(b, &v) == nil }, false, false},
 	// option and context entry points (they share pooled decoder contexts with the ones above and
 	// with each other: the first-win entries run directly before the context ones)
 	{"UnmarshalNoEscape:iface", func(b []byte) bool { var v any; return gojson.UnmarshalNoEscape(b, &v) == nil }, false, false},
